@@ -14,10 +14,12 @@ from vlib.run import Result
 
 LEVEL = "exploration"
 RULE = (
-    "per protocol version 4..14: incomingMessageHandler with every message type 0..6 and undefined ones, generated APS "
+    "per protocol version 4..14 and NCP versions newer than 14 (15, 16; thorough also 31, 255 - served with the v14 "
+    "tables): incomingMessageHandler with every message type 0..6 and undefined ones, generated APS "
     "frame fields, sender, LQI, RSSI in {-128, -1, 0, 127, any}, payload length 0..100, binding/address indexes, (v14) "
     "EUI64 and timestamp; trustCenterJoinHandler with every device-update x decision combination (defined and undefined), "
-    "generated addresses incl. the Xiaomi/Lumi IEEE prefixes. Non-trivial = message type is deliverable with non-empty "
+    "generated addresses incl. the Xiaomi/Lumi IEEE prefixes; zigpy's device table empty or holding the sender's EUI64 under "
+    "another (stale) short address, another device on the sender's short address, both, or the exact device. Non-trivial = message type is deliverable with non-empty "
     "payload, or any join callback; distinct by (version, frame bytes)."
 )
 ASSUMPTIONS = [
@@ -51,6 +53,9 @@ async def scenario(loop, plan, out):
     app = zshim.make_app()
     app._ezsp = ezsp
     app.state.node_info.nwk = zt.NWK(plan.get("own", OWN_NWK))
+    for ieee_hex, nwk in plan.get("known") or []:
+        # devices zigpy already knows (e.g. one whose stored short address is stale, or another one on the sender's address)
+        app.add_device(zt.EUI64.deserialize(bytes.fromhex(ieee_hex))[0], zt.NWK(nwk))
     packets, joins, leaves = [], [], []
     app.packet_received = lambda p: packets.append(p)
     app.handle_join = lambda nwk, ieee, parent, *a, **k: joins.append((int(nwk), bytes(ieee.serialize()), int(parent)))
@@ -89,7 +94,9 @@ def check(plan) -> Result:
     except vloop.Hang:
         r.bad("C13:hang", f"{plan}")
         return r
-    vt = "v14" if plan["v"] >= 14 else "pre-v14"
+    vt = "v14" if plan["v"] == 14 else "newer-than-v14" if plan["v"] > 14 else "pre-v14"
+    if plan.get("known"):
+        r.cls("known-devices")
     if out["raised"]:
         r.bad("C13:receive-raises", f"{out['raised']}; plan {plan}")
         return r
@@ -161,7 +168,33 @@ eui = st.one_of(st.binary(min_size=8, max_size=8),
                 st.binary(min_size=5, max_size=5).map(lambda b: b + bytes.fromhex("44EF54")))
 
 
+@st.composite
+def _with_known(draw, base):
+    plan = dict(draw(base))
+    how = draw(st.sampled_from(["none", "none", "stale-nwk", "other-on-nwk", "both", "exact"]))
+    e, n = plan["eui64"], plan["sender" if plan["t"] == "msg" else "nwk"]
+    other = "aabbccddeeff0011" if e != "aabbccddeeff0011" else "aabbccddeeff0012"
+    known = []
+    if how in ("stale-nwk", "both"):
+        known.append([e, (n + 0x0101) & 0xFFFF])
+    if how in ("other-on-nwk", "both"):
+        known.append([other, n])
+    if how == "exact":
+        known.append([e, n])
+    if known:
+        plan["known"] = known
+    return plan
+
+
 def msg_plans(v):
+    return _with_known(_msg_plans(v))
+
+
+def join_plans(v):
+    return _with_known(_join_plans(v))
+
+
+def _msg_plans(v):
     return st.fixed_dictionaries({
         "t": st.just("msg"), "v": st.just(v), "seq": u8,
         "mtype": st.one_of(st.integers(0, 6), st.integers(0, 6), st.integers(7, 255)),
@@ -173,7 +206,7 @@ def msg_plans(v):
     })
 
 
-def join_plans(v):
+def _join_plans(v):
     return st.fixed_dictionaries({
         "t": st.just("join"), "v": st.just(v), "seq": u8, "nwk": u16, "eui64": eui.map(bytes.hex),
         "status": st.one_of(st.integers(0, 7), st.integers(8, 255)), "decision": st.one_of(st.integers(0, 3), st.integers(0, 3), st.integers(4, 255)),
@@ -195,4 +228,5 @@ def _worker(ctx, job):
 def run(ctx):
     quick = ctx.tier == "quick"
     n = 220 if quick else 25000
-    ctx.parallel(_worker, [(v, n) for v in range(4, 15)])
+    newer = [15, 16] if quick else [15, 16, 31, 255]
+    ctx.parallel(_worker, [(v, n) for v in list(range(4, 15)) + newer])
